@@ -352,10 +352,11 @@ func (r *resource) QueryEvent(cb func(QueryRequest)) {
 	}
 
 	qe := &queryEvent{
-		r:   *r,
-		sub: sub,
-		ch:  ch,
-		cb:  cb,
+		r:    *r,
+		sub:  sub,
+		ch:   ch,
+		done: make(chan struct{}),
+		cb:   cb,
 	}
 
 	r.s.event("event."+r.rname+".query", resQueryEvent{Subject: qsubj})
